@@ -1,10 +1,14 @@
 //! C15 — everything written has been flushed when a call returns.
 
-use vmodel::engine::{ShardCtx, Verdict};
+use std::path::Path;
+
+use serde_json::Value;
+use vmodel::engine::{ShardCtx, Tier, Verdict};
 
 use super::{
+    fuzzdrv,
     lockstep::{replay_lockstep, run_lockstep_shard, Flags, GenOpts},
-    Check, DEFAULT,
+    Check, PrepError, DEFAULT,
 };
 
 const FLAGS: Flags = Flags {
@@ -20,6 +24,7 @@ pub fn check() -> Check {
     Check {
         id: "C15",
         run_shard,
+        prepare: Some(prepare),
         replay: |sub, case| -> Verdict { replay_lockstep(sub, case, FLAGS) },
         floor_quick: 2_000,
         floor_thorough: 20_000,
@@ -30,13 +35,24 @@ pub fn check() -> Check {
     }
 }
 
-fn run_shard(ctx: &ShardCtx) {
-    let opts = GenOpts {
+const SETS: &[&str] = &["raw", "enum", "group"];
+
+fn opts(tier: Tier) -> GenOpts {
+    GenOpts {
         writes: 8,
         set_prompts: 5,
         scripts: true,
-        max_ops: ctx.tier.pick(40, 100),
+        max_ops: tier.pick(40, 100),
         quotes: true,
-    };
-    run_lockstep_shard(ctx, "flush", "C15", ctx.tier.pick(1_500_000, 15_000_000), opts, &["raw", "enum", "group"], FLAGS);
+    }
+}
+
+fn prepare(tier: Tier, seed: u64, _dir: &Path) -> Result<Value, PrepError> {
+    fuzzdrv::prepare_lockstep("C15", "flush", "flush", opts(tier), SETS, tier, seed)
+}
+
+fn run_shard(ctx: &ShardCtx) {
+    run_lockstep_shard(ctx, "flush", "C15", ctx.tier.pick(1_500_000, 15_000_000), opts(ctx.tier), SETS, FLAGS);
+    // what the coverage-guided campaign (prepare) kept, re-run and classified in the plain harness build
+    fuzzdrv::replay_lock_corpus(ctx, "C15", "flush", FLAGS);
 }
